@@ -13,7 +13,8 @@ RULE = ("probe decks 'cell 1 = -s, cell 2 = +s' for one surface card of every el
         'from a grid of small integers and halves; 300 sample points per deck; Lean spec (MCNP manual implicit '
         'functions) vs owners of the written file, plus structural validity. Stream mixed: the same surfaces inside '
         'BSP decks. Non-trivial = every probe deck; distinct = distinct (mnemonic, parameters).')
-NOT_PROVED = ['the 5-entry torus form (TX/TY/TZ with equal minor radii is proved; the elliptical form is decided by surfmodel + monitor)',
+NOT_PROVED = ['tori (circular and elliptic, six entries) are proved with the spec written with a square root (Transc.sqrt); that the '
+              'fourth-degree polynomial form of the torus has the same zero set is not stated',
               'the floating-point tolerances of planeParamsFromPoints (the three-point theorem is over exact arithmetic)']
 ASSUMPTIONS = ['parameters admissible for their mnemonic (radii > 0, non-collinear points …)']
 
